@@ -74,13 +74,15 @@ OPS = {
     # copies
     "copy_deep": (lambda a: a.copy(), ()),
     "copy_shallow": (lambda a: a.copy(deep=False), ()),
+    "copy_deep_data": (lambda a: a.copy(data=np.asarray(a.values) * 2 + 1), ()),
+    "copy_shallow_data": (lambda a: a.copy(deep=False, data=np.asarray(a.values) * 3 - 1), ()),
     "pipe": (lambda a: a.pipe(lambda x: x * 2), ()),
     "compute": (lambda a: a.compute(), ()),
 }
 
 # what the property names: every op above must yield a UxDataArray on the same grid
 # (deep copy: equal but independent grid)
-DEEP_COPY = {"copy_deep"}
+DEEP_COPY = {"copy_deep", "copy_deep_data"}
 
 
 # generic xarray indexing applied ALONG the grid dimension (gd = name of the grid dimension present):
